@@ -90,6 +90,29 @@ def main(args):
     ir_data_utils = importlib.import_module("compiler.util.ir_data_utils")
     parser_types = importlib.import_module("compiler.util.parser_types")
     S = ir_data_utils.IrDataSerializer
+    # E1 (proof part): to_dict / _to_dict / fields_and_values / _from_dict / _enum_type_converter from their real source over a ghost
+    # message class with every kind of field spec that exists, composed into the per-field round trip
+    from vlib import pool
+    from contracts import serializer as cser
+    n0 = len(run.obligations)
+    pool.run_targets(run, "contracts.serializer", ["round_trip", "enum_converter"])
+    for o in cser.ground_obligations():
+        run.add(o)
+    rp = None
+    for ob in run.obligations[n0:]:
+        if ob.verdict == core.REFUTED and ob.replay is None:
+            rp = rp or cser.replay_round_trip(ob.name, ob.model)
+            ob.replay = rp
+    run.function("compiler.util.ir_data_utils.IrDataSerializer.to_dict", "pyvc: with exclude_none=True keeps exactly the fields that are not None and not an empty list (falsy scalars, falsy locations and enum members are kept)")
+    run.function("compiler.util.ir_data_utils.IrDataSerializer._to_dict", "pyvc: value forms per field-spec kind (message, message list, SourceLocation -> str, everything else as is), keys in field order")
+    run.function("compiler.util.ir_data_fields.fields_and_values", "pyvc (inlined): every spec of the node, its value, filtered by the caller's predicate")
+    run.function("compiler.util.ir_data_utils.IrDataSerializer._from_dict", "pyvc: keyword arguments exactly for the keys whose value is not None, converted per field-spec kind; composed with to_dict into the round trip under the stated hypotheses")
+    run.function("compiler.util.ir_data_utils.IrDataSerializer._enum_type_converter", "pyvc: by name for str, by value otherwise")
+    run.assume(*core.STANDING_ASSUMPTIONS["E1"])
+    run.assume("serializer round trip hypotheses: (IH) children round-trip (structural induction over the finite IR tree); (LOC) SourceLocation.from_str(str(l)) == l - bounded part below; "
+               "(JSON) json.loads(json.dumps(d)) == d for str-keyed dicts of None/bool/int/str/list/dict with IntEnum members written as their integer value - CPython json trusted; "
+               "bool(v)/str(v) return v for values of that type; the serializer is applied to plain IR nodes (not builder / read-only wrappers)",
+               "optional fields with a non-None class default (CanonicalName.module_file = '') are never None in IR the front end produces (an explicit None there would be re-read as the default)")
     classes = [c for c in vars(ir_data).values() if isinstance(c, type) and dataclasses.is_dataclass(c) and issubclass(c, ir_data.Message) and c is not ir_data.Message]
     t0 = time.time()
     n_eval, distinct = 0, set()
